@@ -177,7 +177,8 @@ def rule_branch_table(ck: Check, repo: Repo, folder: Folder) -> None:
     r.instance("end-cut-includes-marker", {"ok": ok})
     if not ok:
         r.violation(q, "end marker not removed", "the cut must end after the end marker (index + len(marker))", repo.loc(fn))
-    if "text[ignore_start + len(REUSE_IGNORE_START):]" not in src:
+    from ..rules import has
+    if not has(src, "rest = text[ignore_start + len(REUSE_IGNORE_START):]", ["rest", "ignore_start", "text"]):
         r.violation(q, "rest does not start after the start marker", "", repo.loc(fn))
 
 
